@@ -956,3 +956,36 @@ let () =
         | _ -> List.rev acc in
       String.concat "|" (go None rest [])
     | _ -> "badargs")
+
+(* metar <hexdata|-> <buffered 0/1> <fills|-> <reads|-> op... ;
+   op = r:<n>[x<k>] (k Reads with a buffer of n bytes) | c (Close) |
+        R/<hexdata|->/<buffered>/<fills|->/<reads|-> (Reset over a new scripted source) :
+   implementation-level model of meta.Reader (Meta/ReaderImpl.v). One observation per call:
+   r:<bytes>:<err>:<InputOffset>:<OutputOffset>:<NumBlocks>:<FinalMode>:<source position>,
+   c:<err>:..., R:... *)
+let () =
+  register "metar" (fun args -> match args with
+    | hex :: bf :: fills :: reads :: ops ->
+      let ints s = if s = "-" then [] else List.map (fun x -> nat_of_int (int_of_string x)) (String.split_on_char ',' s) in
+      let rec rep k x acc = if k <= 0 then acc else rep (k - 1) x (x :: acc) in
+      let mops = List.concat (List.map (fun o ->
+        if o = "c" then [RdClose]
+        else if String.length o >= 2 && o.[0] = 'r' then
+          (match String.split_on_char 'x' (String.sub o 2 (String.length o - 2)) with
+           | [n] -> [RdRead (nat_of_int (int_of_string n))]
+           | [n; k] -> rep (int_of_string k) (RdRead (nat_of_int (int_of_string n))) []
+           | _ -> failwith "metar read op")
+        else match String.split_on_char '/' o with
+          | ["R"; h; b; f; r] -> [RdReset (bytes_of_hex h, b = "1", ints f, ints r)]
+          | _ -> failwith "metar op") ops) in
+      let (obs, _) = mr_run (mr_new (bytes_of_hex hex) (bf = "1") (ints fills) (ints reads)) mops in
+      let tail ob = Printf.sprintf "%s:%s:%s:%d:%d" (z_to_string ob.ro_inOff) (z_to_string ob.ro_outOff)
+                      (z_to_string ob.ro_nblocks) (int_of_fmode ob.ro_FinalMode) (int_of_nat ob.ro_srcPos) in
+      String.concat "," (List.map (fun ob ->
+        match ob.ro_ret with
+        | RetRead (_, Some EPanic) -> "Panic"
+        | RetRead (_, Some EFuel) -> "Fuel"
+        | RetRead (bs, e) -> Printf.sprintf "r:%s:%s:%s" (hex_of_bytes bs) (oerr_name e) (tail ob)
+        | RetClose e -> Printf.sprintf "c:%s:%s" (oerr_name e) (tail ob)
+        | RetReset -> "R:" ^ tail ob) obs)
+    | _ -> "badargs")
